@@ -33,6 +33,25 @@ type gxzScenario struct {
 	Crash     string `json:"crash,omitempty"`
 	Path      string `json:"injected_path,omitempty"`
 	Syscall   string `json:"injected_syscall,omitempty"`
+	// Payload "regimes": incompressible and compressible stretches alternate (raw, raw, compressed, raw, compressed
+	// LZMA2 chunks), so that the writer's state snapshot around raw chunks and the encoder ring wrap are exercised
+	Payload string `json:"payload,omitempty"`
+}
+
+var gxzRegimes = func() []byte {
+	rng := rand.New(rand.NewSource(42))
+	d := genRandom(rng, 140000)
+	d = append(d, genText(rng, 30000)...)
+	d = append(d, genRandom(rng, 70000)...)
+	d = append(d, genText(rng, 20000)...)
+	return d
+}()
+
+func (s gxzScenario) payload() []byte {
+	if s.Payload == "regimes" {
+		return gxzRegimes
+	}
+	return gxzPayload
 }
 
 func (s gxzScenario) String() string {
@@ -103,9 +122,9 @@ func classify(dir string, sc gxzScenario, names [3]string, orig, other, staleTmp
 			complete := false
 			if sc.Mode == "compress" {
 				out, ok := decodes(sc.Format, b)
-				complete = ok && bytes.Equal(out, gxzPayload)
+				complete = ok && bytes.Equal(out, sc.payload())
 			} else {
-				complete = bytes.Equal(b, gxzPayload)
+				complete = bytes.Equal(b, sc.payload())
 			}
 			if complete {
 				st[i] = "complete"
@@ -147,9 +166,9 @@ func runGxzScenarioOnce(r *Result, d *DriverPool, gxz string, sc gxzScenario, in
 		}
 	}
 	tmpName := tgtName + "." + sc.Mode
-	orig := gxzPayload
+	orig := sc.payload()
 	if sc.Mode == "decompress" {
-		orig = compressWith(sc.Format, gxzPayload)
+		orig = compressWith(sc.Format, sc.payload())
 		switch sc.Input {
 		case "corrupt":
 			orig = append([]byte{}, orig...)
@@ -355,6 +374,12 @@ func checkC10(a *checkArgs, r *Result) error {
 			}
 		}
 	}
+	var regimes []gxzScenario
+	for _, mode := range []string{"compress", "decompress"} {
+		for _, format := range []string{"xz", "lzma"} {
+			regimes = append(regimes, gxzScenario{Op: "gxz-run", Mode: mode, Format: format, Input: "valid", Payload: "regimes"})
+		}
+	}
 	if a.tier != "thorough" {
 		// quick: a deterministic half of the grid, always including the special scenarios
 		var keep []gxzScenario
@@ -376,6 +401,9 @@ func checkC10(a *checkArgs, r *Result) error {
 			defer func() { <-sem }()
 			runGxzScenario(r, dp, gxz, sc, inj, crash)
 		}()
+	}
+	for _, sc := range regimes {
+		run(sc, nil, false) // plain runs only: the payload, not the fault grid, is what these add
 	}
 	for _, sc := range scs {
 		run(sc, nil, false)
